@@ -950,7 +950,7 @@ class MathShim:
 
 
 # ----------------------------------------------------------------------------- builtins
-def b_float(x=0.0):
+def _conv_float(x=0.0):
     if isinstance(x, AR):
         return x.rational()
     if isinstance(x, SR):
@@ -958,18 +958,18 @@ def b_float(x=0.0):
     if is_sym(x):
         raise Unsupported("float(%s)" % type(x).__name__)
     if isinstance(x, rnp.ndarray) and x.dtype == object and x.size == 1:
-        return b_float(x.item())
+        return _conv_float(x.item())
     return _bi.float(x)
 
 
-def b_int(x=0, *a):
+def _conv_int(x=0, *a):
     if isinstance(x, SR):
         s = z3.simplify(x.t)
         if z3.is_int_value(s):
             return s.as_long()
         return x.trunc()
     if isinstance(x, rnp.ndarray) and x.dtype == object and x.size == 1:
-        return b_int(x.item())
+        return _conv_int(x.item())
     return _bi.int(x, *a)
 
 
@@ -979,12 +979,43 @@ def b_round(x, nd=None):
     return _bi.round(x, nd) if nd is not None else _bi.round(x)
 
 
-def b_complex(re=0, im=0):
+def _conv_complex(re=0, im=0):
     if is_sym(re) or is_sym(im):
         if isinstance(re, SC):
             return re
         return SC(plain(re) if is_sym(re) else SR(toreal(rv(re))), plain(im) if is_sym(im) else SR(toreal(rv(im))))
     return _bi.complex(re, im)
+
+
+class _NumMeta(type):
+    """the sym-aware stand-ins for float / int / complex are CLASSES: calling them converts (proxies stay proxies), and
+    isinstance / issubclass treat them as the types they replace, with proxies passing for numbers"""
+    def __call__(cls, *a, **k):
+        return cls._conv(*a, **k)
+
+    def __instancecheck__(cls, o):
+        return _bi.isinstance(o, cls._real) or cls._proxy(o)
+
+    def __subclasscheck__(cls, c):
+        return _bi.issubclass(c, cls._real)
+
+
+class b_float(float, metaclass=_NumMeta):
+    _real = float
+    _conv = staticmethod(_conv_float)
+    _proxy = staticmethod(lambda o: _bi.isinstance(o, (SR, AR)))
+
+
+class b_int(int, metaclass=_NumMeta):
+    _real = int
+    _conv = staticmethod(_conv_int)
+    _proxy = staticmethod(lambda o: _bi.isinstance(o, SR) and z3.is_int(o.t))
+
+
+class b_complex(complex, metaclass=_NumMeta):
+    _real = complex
+    _conv = staticmethod(_conv_complex)
+    _proxy = staticmethod(lambda o: _bi.isinstance(o, SC))
 
 
 def b_min(*a, **k):
